@@ -27,6 +27,7 @@ func init() {
 			{ID: "C19.5", Desc: "values written to the JSON index survive the encoding", Run: func(c *Ctx) { ruleIndexValuesUTF8Safe(c, "C19.5") }, MinSites: 1},
 			{ID: "C19.9", Desc: "a 304 replaces the fields it carries (a Vary that grows with every validation grows the index record)", Run: func(c *Ctx) { ruleMergeFilter(c, "C19.9") }, MinSites: 1},
 			{ID: "C19.10", Desc: "the variant is resolved from the request the matcher sees, never from Response.Request", Run: func(c *Ctx) { ruleStorerGetsRoundTripRequest(c, "C19.10") }, MinSites: 1},
+			{ID: "C19.11", Desc: "the list a revalidation writes back into is the list its position refers to", Run: func(c *Ctx) { ruleC08_9(c); renameRule(c, "C08.9", "C19.11") }, MinSites: 1},
 		},
 	})
 	register(&Property{
@@ -40,13 +41,14 @@ func init() {
 		Rules: []Rule{
 			{ID: "C20.1", Desc: "foreground never waits", Run: ruleC20_1, MinSites: 1},
 			{ID: "C20.2", Desc: "exactly one spawn, exactly one origin call", Run: ruleC20_2, MinSites: 2},
-			{ID: "C20.3", Desc: "timeout context wiring; detached from the caller (context and Cancel channel)", Run: func(c *Ctx) { ruleC20_3(c); ruleBackgroundCancelCleared(c) }, MinSites: 2},
+			{ID: "C20.3", Desc: "timeout context wiring; detached from the caller (context and Cancel channel)", Run: func(c *Ctx) { ruleC20_3(c); ruleBackgroundCancelCleared(c); ruleCancelClearedUnconditionally(c) }, MinSites: 2},
 			{ID: "C20.4", Desc: "timeout defaulting", Run: ruleC20_4, MinSites: 1},
 			{ID: "C20.5", Desc: "no stuck goroutine: buffered result channel, select on ctx.Done", Run: func(c *Ctx) { ruleBoundedWaits(c, "C20.5", false) }, MinSites: 3},
 			{ID: "C20.6", Desc: "background request is conditional and on a clone", Run: func(c *Ctx) { ruleC20_6(c); ruleValidatorGuards(c, "C20.6") }, MinSites: 1},
 			{ID: "C20.7", Desc: "background failure is not returned to the caller", Run: ruleC20_7, MinSites: 1},
 			{ID: "C20.7", Desc: "inside the stale-while-revalidate window every answer goes through the spawning function; the window uses the current age", Run: func(c *Ctx) { ruleSWRBranchSpawns(c, "C20.7"); ruleSWRWindowAge(c, "C20.7") }, MinSites: 2},
 			{ID: "C20.8", Desc: "the background goroutine releases its waiter only after the reply was handled", Run: func(c *Ctx) { ruleNoReleaseBeforeWriteBack(c, "C20.8") }, MinSites: 1},
+			{ID: "C20.9", Desc: "once spawned the background revalidation sends its request", Run: func(c *Ctx) { ruleBackgroundAlwaysAsks(c, "C20.9") }, MinSites: 1},
 		},
 	})
 }
@@ -247,6 +249,34 @@ func ruleC19_1replace(c *Ctx, sr *ssa.Function) {
 		return false
 	}
 	isWrite := func(in ssa.Instruction) bool { return c.An.CallsRole(in, "writeIndex") }
+	// the comparison loop covers the whole list: it does not range over a tail of it (`refs[i:]`): a record in front of
+	// the overwritten position may describe the variant just written (a record with `*` in its Vary never matches and is
+	// sorted among the others)
+	instrsOf(sr, func(in ssa.Instruction) {
+		sl, ok := in.(*ssa.Slice)
+		if !ok || sl.Low == nil || !isSliceOfRefs(c, sl.Type()) {
+			return
+		}
+		if k, isK := constInt(sl.Low); isK && k == 0 {
+			return
+		}
+		ranged := false
+		if sl.Referrers() != nil {
+			for _, r := range *sl.Referrers() {
+				if _, ok := r.(*ssa.IndexAddr); ok {
+					ranged = true
+				}
+				if cc := callOf(r); cc != nil {
+					if b, ok := cc.Value.(*ssa.Builtin); ok && b.Name() == "len" {
+						ranged = true
+					}
+				}
+			}
+		}
+		if ranged && inCmpLoopAny(sl, cmpBlocks) {
+			c.Fail("C19.1", "replace-dedup-covers-list", "the de-duplication after an in-place overwrite looks at every record of the list", c.P.InstrPos(sl)+": only the records from a position onwards are compared; with an origin alternating `Vary: X-Flavor` and `Vary: X-Flavor, *` the old record in front survives and the index grows by one record per two requests")
+		}
+	})
 	for _, st := range stores {
 		// forward search from the store to an index write that avoids every comparison
 		bad := ""
@@ -783,7 +813,7 @@ func ruleC20_6(c *Ctx) {
 						viaCond = true
 						// its request argument must be a clone
 						c.P.TraceBack(call.Call.Args[0], TraceOpts{NoParams: true}, func(w ssa.Value, _ []int) bool {
-							if cc, ok := w.(*ssa.Call); ok && (callIsMethod(&cc.Call, "net/http", "Request", "Clone") || cc.Call.StaticCallee() == c.A.F("cloneReq")) {
+							if cc, ok := w.(*ssa.Call); ok && (callIsMethod(&cc.Call, "net/http", "Request", "Clone") || cc.Call.StaticCallee() == c.A.F("cloneReq") && clonesURL(c.A.F("cloneReq"))) {
 								viaClone = true
 							}
 							return true
@@ -920,4 +950,40 @@ func ruleC19_7(c *Ctx) {
 		return
 	}
 	c.Pass("C19.7", "index-read-complete", desc, fmt.Sprintf("%s: %d filter closure(s), none reads a field of a reference", c.P.ShortName(ri), nFilters))
+}
+
+// clonesURL: the request-cloning function gives its result a URL of its own (a store into the URL member of the new
+// request); a copy that shares the caller's *url.URL follows the caller's later changes of its request.
+func clonesURL(fn *ssa.Function) bool {
+	if fn == nil {
+		return false
+	}
+	hit := false
+	instrsOf(fn, func(in ssa.Instruction) {
+		if st, ok := in.(*ssa.Store); ok {
+			if fa, ok := st.Addr.(*ssa.FieldAddr); ok && ptrTo(fa.X.Type(), "net/http", "Request") && fieldName(fa.X.Type(), fa.Field) == "URL" {
+				hit = true
+			}
+		}
+		if cc := callOf(in); cc != nil && callIsMethod(cc, "net/http", "Request", "Clone") {
+			hit = true
+		}
+	})
+	return hit
+}
+
+// inCmpLoopAny: the slice value is used (indexed) in a block that belongs to a loop with an id comparison.
+func inCmpLoopAny(sl *ssa.Slice, cmpBlocks map[*ssa.BasicBlock]bool) bool {
+	if sl.Referrers() == nil {
+		return false
+	}
+	for _, r := range *sl.Referrers() {
+		b := r.Block()
+		for cb := range cmpBlocks {
+			if cb == b || reachableAvoiding(b, cb, nil) && reachableAvoiding(cb, b, nil) {
+				return true
+			}
+		}
+	}
+	return false
 }
